@@ -200,4 +200,39 @@ example :
     (seqRun cfgT (ok18 ++ List.replicate 7 (Act.call true 0))).1.st = .opened ∧
     (specRun cfgT (ok18 ++ List.replicate 6 (Act.call true 0))).1.st = .closed := by decide
 
+/-! ## The duration of a call
+
+A request that has arrived but has not been polled (`Fresh`) carries no instant at all: the model cannot count the time a
+response future sits un-polled. The inner call is started by the first poll, and that is where the call's duration begins. -/
+
+/-- The first poll of an admitted caller starts the inner call: the running call it creates has `start` = the instant of that
+poll (however long ago the request arrived) and its scripted latency counts from there. -/
+theorem duration_starts_at_first_poll (cfg : Cfg) (s : State) (f : Fresh)
+    (hok : (tryAcquire cfg s.circ s.now).2.1 = true) :
+    ∃ r : Caller, (admitStep cfg s f).1.running = s.running ++ [r] ∧ r.c = f.c ∧ r.start = s.now ∧
+      r.doneAt = due cfg s.now f.sc.lat := by
+  rw [admitStep_ok cfg s f hok]
+  exact ⟨_, rfl, rfl, rfl, rfl⟩
+
+/-- … and the duration recorded for it (compared with `slow_call_duration_threshold`) is the time from that poll to the poll
+that finds the inner call finished. -/
+theorem recorded_duration (cfg : Cfg) (s : State) (r : Caller) (h : r.out = .ok) :
+    (complete cfg s r).circ =
+      (record cfg s.circ (classify cfg .ok r.tag) (s.now - r.start) s.now
+        (decide (r.ep = some s.circ.episode ∧ s.circ.st = .halfOpen))).1 := by
+  unfold complete
+  simp [h, emit]
+
+/-- Non-vacuity (slow-call threshold 10, slow-call rate 1/1, window 1): a fast success whose future is first polled 50 ticks
+after `call()` is NOT a slow call (closed, slow count 0); a call whose inner service takes 10 ticks from its late first poll is
+(the breaker opens); one that takes 9 is not. -/
+example :
+    let cfg : Cfg := { size := 1, minCalls := 1, slowMs := some 10, srNum := 1, srDen := 1, frNum := 1, frDen := 1 }
+    let held := [Op.arrive 1 ⟨0, .ok⟩ 0, .adv 50, .poll 1]
+    let slow := [Op.arrive 1 ⟨10, .ok⟩ 0, .adv 50, .poll 1, .adv 10, .poll 1]
+    (run cfg held).circ.st = .closed ∧ (run cfg held).circ.slowN = 0 ∧ (run cfg held).circ.totalN = 1 ∧
+    (run cfg slow).circ.st = .opened ∧
+    (run cfg (slow.take 3 ++ [.adv 9, .poll 1])).circ.st = .closed := by
+  decide
+
 end TR.Props.C04
